@@ -666,6 +666,11 @@ pub fn step(state: &State, op: &Op, cfgs: &[Cfg]) -> Result<(StepResult, State),
 /// File-backed store in /dev/shm, busy time-out zero so that SQLITE_BUSY is returned at once
 /// instead of after real seconds.  `exclusive` also blocks the reads.
 pub fn step_busy(state: &State, m: &MsgOp, cfgs: &[Cfg], exclusive: bool) -> Result<(StepResult, State), String> {
+    step_busy_reopen(state, m, cfgs, exclusive).map(|(r, post, _)| (r, post))
+}
+
+/// The same, and additionally what a server restarted afterwards finds in the file.
+pub fn step_busy_reopen(state: &State, m: &MsgOp, cfgs: &[Cfg], exclusive: bool) -> Result<(StepResult, State, State), String> {
     use pool::rusqlite::Connection;
     clock::set_secs(NOW0 as u64);
     let path = format!("/dev/shm/erbium-verif-busy-{}-{}.sqlite", std::process::id(), unsafe { libc::gettid() });
@@ -675,7 +680,7 @@ pub fn step_busy(state: &State, m: &MsgOp, cfgs: &[Cfg], exclusive: bool) -> Res
         }
     };
     cleanup(&path);
-    let r = (|| -> Result<(StepResult, State), String> {
+    let r = (|| -> Result<(StepResult, State, State), String> {
         {
             let conn = Connection::open(&path).map_err(|e| e.to_string())?;
             conn.execute_batch(real_schema()).map_err(|e| e.to_string())?;
@@ -690,7 +695,11 @@ pub fn step_busy(state: &State, m: &MsgOp, cfgs: &[Cfg], exclusive: bool) -> Res
         blocker.execute_batch("ROLLBACK").map_err(|e| format!("blocker: {e}"))?;
         drop(blocker);
         let post = read_state(&mut p, NOW0)?;
-        Ok((res, post))
+        drop(p);
+        let conn = Connection::open(&path).map_err(|e| e.to_string())?;
+        let mut p2 = pool::Pool::verif_with_conn(conn).map_err(|e| format!("reopen: {e}"))?;
+        let post2 = read_state(&mut p2, NOW0)?;
+        Ok((res, post, post2))
     })();
     cleanup(&path);
     r
